@@ -105,10 +105,16 @@ def extra(case, sched, starts, res):
     for e in hist:
         t = e["type"]
         if t.endswith("StateEntered"):
-            d = e["stateEnteredEventDetails"]
+            d = e.get("stateEnteredEventDetails") or {}
+            if not isinstance(d.get("input"), str):
+                fails.append(("state-entered-without-input", "event #%s %s of %r carries no input: %r" % (e.get("id"), t, d.get("name"), d)))
+                return fails
             got.append(("enter", d.get("name"), json.loads(d["input"])))
         elif t.endswith("StateExited"):
-            d = e["stateExitedEventDetails"]
+            d = e.get("stateExitedEventDetails") or {}
+            if not isinstance(d.get("output"), str):
+                fails.append(("state-exited-without-output", "event #%s %s of %r carries no output: %r" % (e.get("id"), t, d.get("name"), d)))
+                return fails
             got.append(("exit", d.get("name"), json.loads(d["output"])))
     def _any_failure(trace):
         for ev in trace:
@@ -169,7 +175,11 @@ mon.SPECS[PID] = mon.Spec(PID, ("history", "exceptions"), RULE, [
     "the trace differential is applied to the first (API-started) execution when the reference is deterministic (no concurrent ambiguous failures, no in-band Error data, single retrier)",
     "task lifecycle events (LambdaFunctionScheduled, TaskSucceeded, ...) are checked for numbering/order only, not against a reference",
 ], nontrivial=nontrivial, extra=extra, run_kwargs={"probe": probe}, variants=lambda: __import__("hypothesis").strategies.sampled_from(
-    [{}, {}, {"logging": "ALL"}, {"logging": "ERROR"}, {"midrun_reads": 3}, {"midrun_reads": 7}]))
+    [{}, {}, {"logging": "ALL"}, {"logging": "ERROR"}, {"midrun_reads": 3}, {"midrun_reads": 7},
+     # the execution data is kept out of the *log*, not out of the stored history
+     {"logging": "ALL", "include_data": False}, {"logging": "ERROR", "include_data": False},
+     # the blocking (Flask) front end on a clock that does not move between the events of one handling: equal timestamps
+     {"rest": "blocking", "tick": 0.0, "midrun_reads": 2}, {"rest": "blocking", "tick": 0.0, "midrun_reads": 5}]))
 
 
 def main(tier, seed, replay=None):
